@@ -31,6 +31,11 @@ FAULT_POINTS = [
     {"kind": "stderr_noise", "text": "<string>:3: DeprecationWarning: invalid escape sequence\n"},
     {"kind": "stderr_noise", "text": {"hex": "ff ff ff 0a"}},
     {"kind": "ok", "d": 0.95},
+    # a process started by the constexpr body (os.system("... &"), subprocess.Popen) inherits the helper's
+    # stdout/stderr pipes and outlives it: the pipes do not reach EOF when the helper ends or is killed
+    {"kind": "orphan", "life": "inf", "d": 0.2},
+    {"kind": "orphan", "life": 6.0, "d": 0.2},
+    {"kind": "orphan", "life": 0.5, "d": 0.1},
 ]
 for _p in FAULT_POINTS:
     if isinstance(_p.get("b"), dict):
@@ -66,6 +71,14 @@ def random_options(r, weird=False):
     return o
 
 
+def clock_jumps(r, p=0.2):
+    """wall-clock steps applied at successive reads of time.time() (empty list most of the time)"""
+    if not r.chance(p):
+        return []
+    return [r.choice([0, 0, 0.5, -0.5, 3600, -3600, -86400 * 400, 86400 * 365 * 30, -1.8e9, 1e-9])
+            for _ in range(r.between(1, 40))]
+
+
 def random_fault(r, kinds=None):
     pts = [p for p in FAULT_POINTS if p["kind"] != "ok" and (kinds is None or p["kind"] in kinds)]
     p = dict(r.choice(pts))
@@ -73,6 +86,8 @@ def random_fault(r, kinds=None):
         p["d"] = round(r.uniform(1.01, 20.0), 2)
     if p["kind"] == "crash":
         p["k"] = r.between(0, 6)
+    if p["kind"] == "orphan" and p["life"] != "inf":
+        p["life"] = round(r.uniform(0.1, 25.0), 2)
     return p
 
 
@@ -193,7 +208,7 @@ def c10_random_spec(seed, k, corp, hash_seeds):
                 clean["recheck"] = True
                 ops.append(clean)
     return {"property": "C10", "kind": "api", "hash_seed": r.choice(hash_seeds), "origin": "random", "k": k,
-            "knobs": {"step_clock": True, "do_timing": r.chance(0.1)}, "ops": ops}
+            "knobs": {"step_clock": True, "do_timing": r.chance(0.1), "clock_jumps": clock_jumps(r)}, "ops": ops}
 
 
 def c10_typing_all_specs(corp, chunk=24):
@@ -274,7 +289,7 @@ def c11_spec(seed, k, corp, hash_seeds):
         ops.append(op)
         used.append(op)
     return {"property": "C11", "kind": "api", "hash_seed": r.choice(hash_seeds), "origin": "random", "k": k,
-            "knobs": {"step_clock": r.chance(0.15), "do_timing": False},
+            "knobs": {"step_clock": r.chance(0.15), "do_timing": False, "clock_jumps": clock_jumps(r)},
             "shared_options": shared_options, "ops": ops}
 
 
@@ -346,5 +361,10 @@ def c14_spec(seed, k, corp, hash_seeds):
     if not has_raw_bytes and r.chance(0.3):
         sess["stdin_errors"] = "strict"
     sess["thief"] = [r.chance(0.5) for _ in range(6)]
+    do_timing = r.chance(0.2)
+    if not do_timing:
+        # capacity of the never-drained stderr pipe: 4 KiB (anonymous pipe as .NET creates it on Windows) or
+        # 64 KiB (Linux).  With the timing knob on the SUT prints by design, so the sink is unbounded there.
+        sess["stderr_capacity"] = r.choice([4096, 65536])
     return {"property": "C14", "kind": "daemon", "hash_seed": r.choice(hash_seeds), "origin": "random", "k": k,
-            "knobs": {"step_clock": r.chance(0.1), "do_timing": r.chance(0.2)}, "session": sess}
+            "knobs": {"step_clock": r.chance(0.1), "do_timing": do_timing, "clock_jumps": clock_jumps(r)}, "session": sess}
